@@ -77,26 +77,26 @@ Proof.
 Qed.
 
 (* ---------------------------------------------------------------- order *)
-Theorem model_order m w c0 pre h :
+Theorem model_order m w hv c0 pre h :
   hist_ok w c0 pre h ->
-  subseq (delivered (run_history m w cap c0 pre h)) (transmitted_pre cap pre ++ transmitted cap h).
+  subseq (delivered (run_history m w hv cap c0 pre h)) (transmitted_pre cap pre ++ transmitted cap h).
 Proof.
   intros (H0 & H8 & Op & Oh & Bd).
-  rewrite <- delivered_erase', (history_refines cap k Hcap Hk m w c0 pre h) by auto.
+  rewrite <- delivered_erase', (history_refines cap k Hcap Hk m w hv c0 pre h) by auto.
   eapply subseq_trans.
   - apply (spec_order cap cap_pos C8). apply (spec_init_ok cap cap_pos C8); auto.
   - apply subseq_app; [|apply subseq_refl]. now apply init_pending_sub.
 Qed.
 
 (* ---------------------------------------------------------------- completeness *)
-Theorem model_complete m w c0 pre h :
+Theorem model_complete m w hv c0 pre h :
   hist_ok w c0 pre h ->
   never_lapped cap (spec_init cap c0 pre) h ->
   Forall deliverable (transmitted_pre cap pre) -> Forall deliverable (transmitted cap h) ->
   let s0 := spec_init cap c0 pre in
   let sf := spec_final cap s0 h in
-  Forall clean (run_history m w cap c0 pre h) /\
-  delivered (run_history m w cap c0 pre h) ++ pending (s_ch sf) (s_next (s_rx sf))
+  Forall clean (run_history m w hv cap c0 pre h) /\
+  delivered (run_history m w hv cap c0 pre h) ++ pending (s_ch sf) (s_next (s_rx sf))
     = pending (s_ch s0) (s_next (s_rx s0)) ++ transmitted cap h /\
   s_lapped (s_rx sf) = 0.
 Proof.
@@ -105,19 +105,19 @@ Proof.
   { pose proof (init_pending_sub c0 pre H8) as S. fold s0 in S. clear - S Dp.
     induction S; [constructor| |]; inversion Dp; subst; auto. }
   destruct (spec_complete cap cap_pos C8 h s0 (spec_init_ok cap cap_pos C8 c0 pre H8) NL Dp' Dt) as (A & B & C).
-  pose proof (history_refines cap k Hcap Hk m w c0 pre h H0 H8 Op Oh Bd) as R. unfold spec_history in R. fold s0 in R.
+  pose proof (history_refines cap k Hcap Hk m w hv c0 pre h H0 H8 Op Oh Bd) as R. unfold spec_history in R. fold s0 in R.
   rewrite <- R in A, B.
   rewrite delivered_erase' in B. split; [now apply clean_erase|]. split; auto.
 Qed.
 
 (* with a receiver that exists from the start: nothing lost, nothing duplicated, nothing reordered *)
-Corollary model_complete_from_start m w c0 h :
+Corollary model_complete_from_start m w hv c0 h :
   hist_ok w c0 [] h -> never_lapped cap (spec_init cap c0 []) h -> Forall deliverable (transmitted cap h) ->
   let sf := spec_final cap (spec_init cap c0 []) h in
-  Forall clean (run_history m w cap c0 [] h) /\
-  delivered (run_history m w cap c0 [] h) ++ pending (s_ch sf) (s_next (s_rx sf)) = transmitted cap h.
+  Forall clean (run_history m w hv cap c0 [] h) /\
+  delivered (run_history m w hv cap c0 [] h) ++ pending (s_ch sf) (s_next (s_rx sf)) = transmitted cap h.
 Proof.
-  intros H NL D sf. destruct (model_complete m w c0 [] h H NL ltac:(constructor) D) as (A & B & _).
+  intros H NL D sf. destruct (model_complete m w hv c0 [] h H NL ltac:(constructor) D) as (A & B & _).
   split; auto.
 Qed.
 
@@ -157,18 +157,18 @@ Proof.
     + discriminate E.
 Qed.
 
-Theorem model_overrun m w c0 pre h1 h2 :
+Theorem model_overrun m w hv c0 pre h1 h2 :
   hist_ok w c0 pre (h1 ++ Receive :: h2) ->
   let s0 := spec_init cap c0 pre in
   let s1 := spec_final cap s0 h1 in
   Forall (fun o => o <> OPanic) (spec_run cap s0 h1) ->
   cap <= backlog (s_ch s1) (s_rx s1) ->
-  let os := run_history m w cap c0 pre (h1 ++ Receive :: h2) in
+  let os := run_history m w hv cap c0 pre (h1 ++ Receive :: h2) in
   nth_error os (length h1) = Some (Rx (s_lapped (s_rx s1) + 1) (RErr UnableToKeepUp)) /\
   subseq (delivered (skipn (S (length h1)) os)) (transmitted cap h2).
 Proof.
   intros (H0 & H8 & Op & Oh & Bd) s0 s1 NP Lap os.
-  pose proof (history_refines cap k Hcap Hk m w c0 pre (h1 ++ Receive :: h2) H0 H8 Op Oh Bd) as R.
+  pose proof (history_refines cap k Hcap Hk m w hv c0 pre (h1 ++ Receive :: h2) H0 H8 Op Oh Bd) as R.
   fold os in R. unfold spec_history in R. fold s0 in R.
   destruct (spec_run_app h1 s0 (Receive :: h2) (spec_init_ok cap cap_pos C8 c0 pre H8) NP) as (A & [SI Le] & Len).
   fold s1 in A, SI, Le. rewrite A in R. cbn [spec_run] in R. unfold spec_step at 1 in R.
@@ -202,15 +202,15 @@ Proof.
   now apply obs_match_erase.
 Qed.
 
-Theorem oracle_seq_model m w c0 pre h :
+Theorem oracle_seq_model m w hv c0 pre h :
   hist_ok w c0 pre h ->
-  holds_seq cap c0 pre h (map show_obs (run_history m w cap c0 pre h)) = true.
+  holds_seq cap c0 pre h (map show_obs (run_history m w hv cap c0 pre h)) = true.
 Proof.
   intros (H0 & H8 & Op & Oh & Bd). unfold holds_seq.
-  pose proof (history_refines cap k Hcap Hk m w c0 pre h H0 H8 Op Oh Bd) as R. rewrite <- R.
+  pose proof (history_refines cap k Hcap Hk m w hv c0 pre h H0 H8 Op Oh Bd) as R. rewrite <- R.
   apply all_match_erase.
   (* the specification never crashes, hence neither does the model *)
-  assert (NC : Forall (fun o => o <> OCrash) (map erase (run_history m w cap c0 pre h))).
+  assert (NC : Forall (fun o => o <> OCrash) (map erase (run_history m w hv cap c0 pre h))).
   { rewrite R. unfold spec_history. generalize (spec_init cap c0 pre). clear.
     induction h as [|o h IH]; intros s; cbn [spec_run]; [constructor|].
     destruct (spec_step cap s o) as [[s'|] ob] eqn:E.
@@ -224,7 +224,7 @@ Proof.
       + destruct (spec_transmit cap (s_ch s) ty bs). discriminate E.
       + destruct (spec_receive cap (s_ch s) (s_rx s)) as [[? ?]|]; [discriminate E|]. injection E as E2. rewrite <- E2. discriminate.
       + discriminate E. }
-  clear - NC. induction (run_history m w cap c0 pre h) as [|o os IH]; [constructor|].
+  clear - NC. induction (run_history m w hv cap c0 pre h) as [|o os IH]; [constructor|].
   cbn [map] in NC. apply Forall_cons_iff in NC. destruct NC as [N1 N2]. constructor; auto.
   destruct o; cbn in N1; congruence.
 Qed.
